@@ -34,14 +34,14 @@ func init() {
 		Builds:              []string{"default", "386"}, // the 386 build runs 1/4 of the random classes on a 32-bit target
 		Scale386:            4,
 		// a history case scans its share of all 2^30 checksum values when Decode turns out to depend on the call before it
-		StallClass:       map[string]int{"history": 1500},
+		StallClass:       map[string]int{"history": 1500, "acceptset": 1500}, // scans of millions of rejected strings: slow when rejections are slow
 		WatchdogQuick:    3000,
 		WatchdogThorough: 7200,
 		Rule: "valid strings built by the model encoder (total lengths 90 down to 12, lower and upper case, human-readable parts with letters and digits). w1: every substitution of one character; w2: every substitution of two characters (one case per first position, all second positions and all replacement values inside); w34: seeded random patterns of 3 and 4 changed characters. " +
 			"A data-part character (checksum included) is replaced by every other charset character in the case of the string, a letter of the human-readable part by every other letter of the same case, a digit by every other digit. Every corrupted string goes through bech32.Decode; an acceptance is a violation. " +
 			"syndrome (one case, shard 0): sigma(j,v) = polymod(base xor e_{j,v}) xor polymod(base) is read from the real bech32Polymod (hook VerifPolymod) for every distance j = 0..88 from the end and every v = 1..31 on several random bases of lengths 89..178; independence of base and length and additivity on sampled patterns are monitored; all single and pair sums (and the empty sum) are sorted and searched for equal values: two different entries with the same value are an undetected error of weight <= 4; a hit is turned into a pair of concrete strings and confirmed through bech32.Encode/Decode before it is reported. " +
 			"concurrent: 8 goroutines call Decode at once on valid strings with related human-readable parts and on corrupted strings made of a related human-readable part (1..4 letters changed) and the data part of a valid string; every corrupted string must be rejected. acceptset: for one valid string the six checksum symbols are XORed with a 30-bit delta, which makes the checksum polymod 1^delta; Decode must reject every delta != 0: plausible constants (Bech32m, 0, small values, single bits) on every shard and 2^22-value chunks of all 2^30 values (one random chunk per shard in quick, all 256 chunks = exhaustive in thorough); an accepted delta is converted with the syndrome table into an error pattern of weight <= 4 and confirmed as a pair of strings. " +
-			"history: the acceptance-set scan on an 89-character valid string with a rejected Decode call in front of every probe (8 kinds of rejected strings: invalid character at the end / in the middle of the data part, data part shorter than a checksum, mixed case, wrong checksum, no separator, over-long, empty human-readable part); 2^17 checksum values per kind and shard in the quick tier, 2^23 in the thorough tier, and all 2^30 (split over the shards) as soon as the valid string itself is rejected after such a call; an accepted value is turned into a pattern of at most four substitutions inside the data part of the same string and confirmed through the same two calls. " +
+			"history: the acceptance-set scan on an 89-character valid string with a rejected call in front of every probe — bech32.Decode, or address.ParseBech32 which sits on top of it — (8 kinds of rejected strings: invalid character at the end / in the middle of the data part, data part shorter than a checksum, mixed case, wrong checksum, no separator, over-long, empty human-readable part); 2^17 checksum values per kind and shard in the quick tier, 2^23 in the thorough tier, and all 2^30 (split over the shards) as soon as the valid string itself is rejected after such a call; an accepted value is turned into a pattern of at most four substitutions inside the data part of the same string and confirmed through the same two calls. " +
 			"Non-trivial: every w2, w34, acceptset, history and syndrome case (distinct (string, first position) resp. (string, pattern seed)).",
 		Assumptions: []string{"the BIP-173 port in harness/oracle/bech32m builds the valid strings (self-tested against the vectors published in BIP-173); the library must accept them, otherwise that is reported",
 			"layer (c) judges the function the hook exposes; that Decode uses it is what the w1/w2/w34 layers observe"},
@@ -622,12 +622,12 @@ func gen(g *fw.Gen) {
 	}
 	// the same scan with a rejected call in front of every probe (8 kinds of rejected strings)
 	if g.Build != "386" {
-		for k := 0; k < 8; k++ {
+		for k := 0; k < 16; k++ {
 			th := byte(0)
 			if !g.Quick() {
 				th = 1
 			}
-			g.Emit("history", fw.Pack(fw.U64(uint64(g.Seed)*8+uint64(k)), []byte{byte(k)}, fw.U32(uint32(g.Shard)), fw.U32(uint32(g.NShards)), []byte{th}))
+			g.Emit("history", fw.Pack(fw.U64(uint64(g.Seed)*16+uint64(k)), []byte{byte(k)}, fw.U32(uint32(g.Shard)), fw.U32(uint32(g.NShards)), []byte{th}))
 		}
 	}
 	list := bases(g.Seed, g.Scaled(g.Pick(6, 100)))
